@@ -47,3 +47,11 @@ Example C03_replay_rejects_stray_and_early_writes :
   ~ wfoot (fun _ => False) [] [EWrite 4096 [1]; EMmap 0 12 (Some 4096)] /\ wfoot (fun _ => False) [] (o_trace (os0 (fun _ => 0))).
 Proof. exact (conj stray_write_rejected (conj late_mapping_rejected I)). Qed.
 Print Assumptions C03_replay_rejects_stray_and_early_writes.
+
+(* the library's process-wide state, as found in the current source, is what the model has: the guard, and one call counter per fake!
+   call site; no pool, table, cache or remembered address survives an injector (generated constants, tools/const_translate.py) *)
+From Inj Require SrcTieLife.
+Theorem C03_library_state_is_what_the_model_has :
+  (SrcTieLife.src_only_guard_static && SrcTieLife.src_macro_statics_are_counters)%bool = true.
+Proof. exact SrcTieLife.src_state_shape. Qed.
+Print Assumptions C03_library_state_is_what_the_model_has.
